@@ -299,19 +299,22 @@ Section Inv.
     Qed.
   End Slot.
 
+  Lemma rat_effect_same name v r : rat_effect name v v r = r.
+  Proof. unfold rat_effect. destruct (negb (String.eqb name "syncmode")); auto. now rewrite Z.eqb_refl. Qed.
+
   Lemma set_int_same k r v s :
     nth_error itab k = Some r -> nth_error (iv s) k = Some v -> int_inv r v ->
     set_int true k v s = ({| bv := bv s; iv := iv s; rv := rv s; seed := seed s;
-                             dv := apply_ieff (i_name r) v (dv s); tv := tv s; lpd := lpd s |}, true).
+                             dv := apply_ieff (i_name r) v (dv s); tv := tv s; lpd := lpd s; rat := rat s |}, true).
   Proof.
     intros Hr Hc Hv. unfold ParamsModel.set_int. rewrite Hr, Hc. simpl. unfold int_inv in Hv. rewrite Hv.
-    now rewrite (upd_same _ _ _ Hc).
+    rewrite (upd_same _ _ _ Hc). rewrite rat_effect_same. reflexivity.
   Qed.
 
   Lemma set_real_same k r v s :
     nth_error rtab k = Some r -> nth_error (rv s) k = Some v -> real_inv r v ->
     set_real true k v s = ({| bv := bv s; iv := iv s; rv := rv s; seed := seed s;
-                              dv := dv s; tv := apply_reff (r_name r) v (tv s); lpd := lpd s |}, true).
+                              dv := dv s; tv := apply_reff (r_name r) v (tv s); lpd := lpd s; rat := rat s |}, true).
   Proof.
     intros Hr Hc [Hin Hset]. unfold ParamsModel.set_real. rewrite Hr, Hc. simpl.
     assert (deq v v = true) as Hvv by (apply deq_refl; eapply in_range_not_nan; eauto).
@@ -334,7 +337,7 @@ Section Inv.
     - repeat split; auto.
     - pose proof (Ht 0%nat r eq_refl) as Hr. pose proof (Hv 0%nat v eq_refl) as Hc. rewrite Nat.add_0_r in Hr, Hc.
       rewrite (set_int_same k r v s Hr Hc Hrv).
-      set (s1 := {| bv := bv s; iv := iv s; rv := rv s; seed := seed s; dv := apply_ieff (i_name r) v (dv s); tv := tv s; lpd := lpd s |}).
+      set (s1 := {| bv := bv s; iv := iv s; rv := rv s; seed := seed s; dv := apply_ieff (i_name r) v (dv s); tv := tv s; lpd := lpd s; rat := rat s |}).
       specialize (IH (S k) s1 (apply_ieff (i_name r) v d0)).
       destruct (fold_set (set_int true) (S k) vals s1) as [s2 o2] eqn:E. cbn [fst snd] in *.
       destruct IH as (Ho & ? & ? & ? & ? & ? & ? & Hdv).
@@ -358,7 +361,7 @@ Section Inv.
     - repeat split; auto.
     - pose proof (Ht 0%nat r eq_refl) as Hr. pose proof (Hv 0%nat v eq_refl) as Hc. rewrite Nat.add_0_r in Hr, Hc.
       rewrite (set_real_same k r v s Hr Hc Hrv).
-      set (s1 := {| bv := bv s; iv := iv s; rv := rv s; seed := seed s; dv := dv s; tv := apply_reff (r_name r) v (tv s); lpd := lpd s |}).
+      set (s1 := {| bv := bv s; iv := iv s; rv := rv s; seed := seed s; dv := dv s; tv := apply_reff (r_name r) v (tv s); lpd := lpd s; rat := rat s |}).
       specialize (IH (S k) s1 (apply_reff (r_name r) v t0)).
       destruct (fold_set (set_real true) (S k) vals s1) as [s2 o2] eqn:E. cbn [fst snd] in *.
       destruct IH as (Ho & ? & ? & ? & ? & ? & ? & Hdv).
@@ -378,7 +381,7 @@ Section Inv.
     pose proof (Ht 0%nat r eq_refl) as Hr. pose proof (Hv 0%nat v eq_refl) as Hc. rewrite Nat.add_0_r in Hr, Hc.
     unfold ParamsModel.set_bool at 1. rewrite Hr, Hc. simpl.
     unfold bool_valid. rewrite Bool.eqb_reflx, orb_true_r. rewrite (upd_same _ _ _ Hc).
-    replace {| bv := bv s; iv := iv s; rv := rv s; seed := seed s; dv := dv s; tv := tv s; lpd := lpd s |} with s by (destruct s; reflexivity).
+    replace {| bv := bv s; iv := iv s; rv := rv s; seed := seed s; dv := dv s; tv := tv s; lpd := lpd s; rat := rat s |} with s by (destruct s; reflexivity).
     rewrite IH; auto.
     - intros j r' Hj. replace (S k + j)%nat with (k + S j)%nat by lia. apply Ht; exact Hj.
     - intros j v' Hj. replace (S k + j)%nat with (k + S j)%nat by lia. apply Hv; exact Hj.
@@ -451,7 +454,8 @@ Section Inv.
     seed (fst r) = seed s /\ lpd (fst r) = lpd s /\ Consistent (fst r).
   Proof.
     intros Ld Lt Hb Hi Hr. unfold set_settings.
-    set (s0 := {| bv := nb; iv := ni; rv := nr; seed := seed s; dv := dv s; tv := tv s; lpd := lpd s |}).
+    set (s0 := {| bv := nb; iv := ni; rv := nr; seed := seed s; dv := dv s; tv := tv s; lpd := lpd s;
+                  rat := if get_int itab "syncmode" ni =? get_int itab "syncmode" (iv s) then rat s else -1 |}).
     rewrite (fold_set_bool_all btab nb 0%nat s0 Hb); simpl; auto.
     pose proof (fold_set_int_all itab ni 0%nat s0 (dv s) Hi) as HI. simpl in HI.
     destruct (fold_set (set_int true) 0 ni s0) as [s2 o2] eqn:E2. simpl in HI.
@@ -472,7 +476,7 @@ Section Inv.
 
   Theorem step_consistent s o : Consistent s -> Consistent (fst (step s o)).
   Proof.
-    intros C. destruct o as [i v|i v|i v|n|l sd|ls| |[[ob oi] orl]]; simpl.
+    intros C. destruct o as [i v|i v|i v|n|l sd|ls| | |[[ob oi] orl]]; simpl.
     - now apply set_bool_consistent.
     - now apply set_int_consistent.
     - now apply set_real_consistent.
@@ -480,6 +484,7 @@ Section Inv.
     - now apply parse_line_consistent.
     - apply fold_left_consistent; auto. intros; now apply parse_line_consistent.
     - now apply reset_consistent.
+    - destruct C as [cb ci cr cd ct]. constructor; auto.
     - destruct (consistent_lengths s C) as [Ld Lt].
       set (o3 := fold_left _ orl _).
       assert (Consistent o3) as C3.
@@ -636,7 +641,7 @@ Section Inv.
   Theorem step_lpd s o : lpd (fst (step s o)) = lpd s.
   Proof.
     destruct setters_lpd as (Hb & Hi & Hr).
-    destruct o as [i v|i v|i v|n|l sd|ls| |[[ob oi] orl]]; simpl; auto; try first [apply Hb | apply Hi | apply Hr].
+    destruct o as [i v|i v|i v|n|l sd|ls| | |[[ob oi] orl]]; simpl; auto; try first [apply Hb | apply Hi | apply Hr].
     - apply parse_lpd.
     - revert s. induction ls as [|l ls IH]; intros s; simpl; auto. rewrite IH. apply parse_lpd.
     - unfold reset.
@@ -658,6 +663,38 @@ Section Inv.
         destruct (fold_set (set_real true) 0 nr s2) as [s3 o3] eqn:E3;
         pose proof (fold_set_lpd (set_real true) (Hr true) nr 0%nat s2) as [P3 _]; rewrite E3 in P3 end.
       simpl in *. congruence.
+  Qed.
+
+  (* ---- the rational LP is touched only by a change of the synchronisation mode ---- *)
+  Theorem rat_untouched_by_other_setters :
+    (forall ini k v s, rat (fst (set_bool ini k v s)) = rat s) /\
+    (forall ini k v s, rat (fst (set_real ini k v s)) = rat s) /\
+    (forall n s, rat (set_seed n s) = rat s) /\
+    (forall ini k v s r, nth_error itab k = Some r -> i_name r <> "syncmode"%string -> rat (fst (set_int ini k v s)) = rat s).
+  Proof.
+    repeat split.
+    - intros; unfold ParamsModel.set_bool;
+        repeat match goal with |- context [match ?x with Some _ => _ | None => _ end] => destruct x
+                             | |- context [if ?b then _ else _] => destruct b end; auto.
+    - intros; unfold ParamsModel.set_real;
+        repeat match goal with |- context [match ?x with Some _ => _ | None => _ end] => destruct x
+                             | |- context [if ?b then _ else _] => destruct b end; auto.
+    - intros ini k v s r Hr Hn. unfold ParamsModel.set_int. rewrite Hr.
+      destruct (nth_error (iv s) k) as [cur|]; auto.
+      destruct (negb ini && (v =? cur)); auto. destruct (int_valid r v); auto. simpl.
+      unfold rat_effect. apply String.eqb_neq in Hn. now rewrite Hn.
+  Qed.
+
+  (* switching the mode: ONLYREAL drops it, AUTO synchronises it from the floating-point LP only when coming from ONLYREAL
+     (never from MANUAL: rational data entered there is kept verbatim), MANUAL creates an empty one only if there is none *)
+  Theorem rat_on_syncmode k r cur v s :
+    nth_error itab k = Some r -> i_name r = "syncmode"%string -> nth_error (iv s) k = Some cur -> int_valid r v = true ->
+    rat (fst (set_int true k v s)) =
+      (if v =? cur then rat s else if v =? 0 then 0 else if v =? 1 then (if cur =? 0 then 2 else rat s)
+       else if v =? 2 then (if rat s =? 0 then 3 else rat s) else rat s).
+  Proof.
+    intros Hr Hn Hc Hv. unfold ParamsModel.set_int. rewrite Hr, Hc. simpl. rewrite Hv. simpl.
+    unfold rat_effect. rewrite Hn. reflexivity.
   Qed.
 
   (* ---- reset restores the documented defaults ---- *)
